@@ -190,19 +190,30 @@ import stone.backends.python_rsrc.stone_base as bb
 
 
 def corpus_validators(kinds=None):
+    """the validators of the corpus of the given kinds: module-level ones, field and tag validators, and the
+    validators nested in them (inside Nullable / List / Map)"""
     import spec.corpus as corpus
+    top = [v for e, v in corpus.validators()]
+    for e, c in corpus.struct_classes():
+        top.extend(fv for name, fv in c._all_fields_)
+    for e, c in corpus.union_classes():
+        top.extend(tv for tag, tv in sorted(c._tagmap.items()))
     out = []
-    for e, v in corpus.validators():
+    seen = set()
+    stack = list(reversed(top))
+    while stack:
+        v = stack.pop()
+        if id(v) in seen:
+            continue
+        seen.add(id(v))
         if kinds is None or isinstance(v, kinds):
             out.append(v)
-    for e, c in corpus.struct_classes():
-        for name, fv in c._all_fields_:
-            if kinds is None or isinstance(fv, kinds):
-                out.append(fv)
-    for e, c in corpus.union_classes():
-        for tag, tv in c._tagmap.items():
-            if kinds is None or isinstance(tv, kinds):
-                out.append(tv)
+        if isinstance(v, bv.Nullable):
+            stack.append(v.validator)
+        elif isinstance(v, bv.List):
+            stack.append(v.item_validator)
+        elif isinstance(v, bv.Map):
+            stack.append(v.value_validator)
     return out
 
 
